@@ -1205,8 +1205,8 @@ def c_skel(t):
 CLEAR_EVERY = 4      # every CLEAR_EVERY-th step of a history is compared in clear (others: 61-bit fingerprint)
 
 
-def c_history(ops, full=False, phase=0):
-    return "%s init [%s]" % ("trace" if full else "trace_smp %d %d 0" % (CLEAR_EVERY, phase % CLEAR_EVERY),
+def c_history(ops, full=False, phase=0, every=CLEAR_EVERY):
+    return "%s init [%s]" % ("trace" if full else "trace_smp %d %d 0" % (every, phase % every),
                              "; ".join(c_op(o) for o in ops))
 
 
@@ -1233,7 +1233,11 @@ def run_history(ops_or_gen, max_steps, use_oracle=True):
         if use_oracle:
             bad = oracle_step(impl, op, res, info, pre_vecs, pre_leaves) or oracle_structure(impl)
             if bad and op["op"] in SETTER_KEYS and "exc" not in info:
-                bad = (SETTER_KEYS[op["op"]][0], SETTER_KEYS[op["op"]][1] + " -- " + bad[1])
+                if op["op"] == "set_fields" and isinstance(info.get("arg"), (list, tuple)) and \
+                        len(info["arg"]) == len(pre_schema[op["vi"]][1]):
+                    bad = ("fields-setter-duplicate-names", "`v.fields = names` accepted names that are not unique -- " + bad[1])
+                else:
+                    bad = (SETTER_KEYS[op["op"]][0], SETTER_KEYS[op["op"]][1] + " -- " + bad[1])
             if bad is None:
                 bad = oracle_schema(impl, op, info, pre_vecs, pre_schema) or \
                     oracle_effect(impl, op, info, pre_vecs, pre_leaves) or oracle_flatten(impl)
@@ -1349,14 +1353,14 @@ def directed_histories():
 
 
 # ------------------------------------------------------------------------------------------
-def compare(ctx: Ctx, hist, val, tag, phase=0):
+def compare(ctx: Ctx, hist, val, tag, phase=0, every=CLEAR_EVERY):
     """model trace (trace_smp) vs implementation; returns index of first differing step or None.  Per step the
     result / error class is compared in clear; the state observation in clear at the sampled steps and through
     its fingerprint at the others"""
     steps_m, fin_m = val
     n = len(hist["steps"])
     for k in range(n):
-        clear = k % CLEAR_EVERY == phase % CLEAR_EVERY
+        clear = k % every == phase % every
         want = (hist["steps"][k], hist["obs"][k] if clear else [fp(hist["obs"][k])])
         got = (list(steps_m[k][0]), list(steps_m[k][1])) if k < len(steps_m) else None
         if got != want:
@@ -1408,8 +1412,8 @@ def run(ctx: Ctx):
         "(zip and directory stores); directed witnesses first. "
         "Distinct = distinct op list; non-trivial = at least two live vectors, one populated cell and three "
         "successful state-changing steps. Every step of every history is compared: result / error class in clear, "
-        "the full state observation in clear at every 4th step (phase varies with the history) and at the end, as "
-        "a 61-bit fingerprint at the other steps.")
+        "the full state observation in clear at every 4th step (12th in the thorough tier; the phase varies with the "
+        "history) and at the end, as a 61-bit fingerprint at the other steps.")
     ctx.assumptions += [
         "numpy float64 arithmetic is exact on the generated dyadic values (magnitudes are bounded by the generator; "
         "division only by powers of two) so the exact-rational model can be compared with ==",
@@ -1451,7 +1455,8 @@ def run(ctx: Ctx):
             ctx.violation(key, "%s  [step %d: %s]" % (msg, k, describe(h["ops"][k])),
                           {"kind": "history", "ops": h["ops"], "failing_step": k, "oracle": msg})
     # ---- model
-    exprs = [c_history(h["ops"], phase=n) for n, (_, h) in enumerate(hists)]
+    every = ctx.budget(CLEAR_EVERY, 3 * CLEAR_EVERY)     # long histories have large states: print fewer of them
+    exprs = [c_history(h["ops"], phase=n, every=every) for n, (_, h) in enumerate(hists)]
     vals = ctx.coq_eval("hist", PRE, exprs, shard=max(8, len(exprs) // 32 + 1), timeout=900)
     n_dis = 0
     for hn, ((tag, h), val) in enumerate(zip(hists, vals)):
@@ -1466,7 +1471,7 @@ def run(ctx: Ctx):
             ctx.dist("fixed-dims/%d" % dd)
             ctx.dist("result/%s" % ({0: "none", 1: "cell", 2: "cells", 3: "new-vector", 4: "flat", 5: "column"}.get(
                 s[0], "err%s" % (s[1] if len(s) > 1 else "?"))))
-        bad_at = compare(ctx, h, val, tag, phase=hn)
+        bad_at = compare(ctx, h, val, tag, phase=hn, every=every)
         if bad_at is not None:
             n_dis += 1
             ctx.cov["disagreements_checked"] += 1
